@@ -50,7 +50,7 @@ def generate(tier, seed):
         cases.append({"kind": "cys", "seed": "%d:cys:%d" % (seed, k), "cost": 3})
     for k in range(6 if tier == "quick" else 120):
         cases.append({"kind": "ties", "seed": "%d:ties:%d" % (seed, k), "cost": 3})
-    npose = 8 if tier == "quick" else 480
+    npose = 24 if tier == "quick" else 600
     for k in range(npose):
         cases.append({"kind": "pose", "seed": "%d:pose:%d" % (seed, k), "cost": 60})
     return cases
@@ -455,10 +455,54 @@ def bridged_carries_no_charge(run, viol, counts):
                 return
 
 
+def pipeline_bonds_follow_the_rule(mol, viol, counts):
+    """After a whole run: among the heavy atoms of every conformation - protein, ligands and ions alike - the
+    bonds held are those of the pairwise rule, and both sulfurs of every S-S bond are flagged as bridged."""
+    from ..monitors import bonds
+    for name in mol.conformation_names:
+        heavy = [a for a in mol.conformations[name].atoms if a.element != "H"]
+        idx = {id(a): i for i, a in enumerate(heavy)}
+        have = set()
+        for i, a in enumerate(heavy):
+            for b in a.bonded_atoms:
+                j = idx.get(id(b))
+                if j is not None and i < j:
+                    have.add((i, j))
+        must, skip = bonds.reference_pairs(heavy)
+        counts["pipeline_conformations_checked"] = counts.get("pipeline_conformations_checked", 0) + 1
+        counts["pipeline_reference_bonds"] = counts.get("pipeline_reference_bonds", 0) + len(must)
+        wrong = [(i, j) for (i, j) in (must ^ have) if (i, j) not in skip]
+        if wrong:
+            i, j = wrong[0]
+            viol.append({"cls": "pipeline-bonds-differ-from-the-rule", "msg": "conformation %s: %s %s%d and %s %s%d (%.3f A) are %s; %d pairs differ" % (
+                name, heavy[i].name, heavy[i].res_name, heavy[i].res_num, heavy[j].name, heavy[j].res_name, heavy[j].res_num,
+                math.dist((heavy[i].x, heavy[i].y, heavy[i].z), (heavy[j].x, heavy[j].y, heavy[j].z)),
+                "bonded" if (i, j) in have else "not bonded", len(wrong))})
+        for (i, j) in must:
+            if heavy[i].element == "S" and heavy[j].element == "S" and not (heavy[i].cysteine_bridge and heavy[j].cysteine_bridge):
+                viol.append({"cls": "ss-not-flagged", "msg": "conformation %s: S-S bond %s%d - %s%d, bridge flags %r / %r" % (
+                    name, heavy[i].res_name, heavy[i].res_num, heavy[j].res_name, heavy[j].res_num, heavy[i].cysteine_bridge, heavy[j].cysteine_bridge)})
+                break
+
+
 def pose_case(rng, viol, counts):
     from .. import obs, pdbio, sources
     name = rng.choice(sources.PROTEINS)
     recs = sources.full_protein(name)
+    u_ = rng.random()
+    if u_ < 0.3:
+        # several conformations: the same atoms (serials restarting) in two or three MODELs, side chains jittered
+        from .. import multiconf
+        recs, _d = multiconf.build(rng, base=sources.random_small_structure(rng, 120, 700))
+    elif u_ < 0.5:
+        # an ion within bonding distance of a protein atom (a tight metal site)
+        from .. import fragments
+        from .c16 import titratable_anchor
+        recs = sources.random_small_structure(rng, 120, 700)
+        frag, _e, _d = fragments.place_near(recs, rng.choice(("ion:ZN", "ion:MG", "ion:CU", "ion:FE")), rng, anchor=titratable_anchor(recs, rng),
+                                            dist_A=rng.choice((1.85, 1.95, 2.05, 2.3)), min_clear_A=1.7)
+        if frag:
+            recs = recs + frag
     rot = rng.choice(pdbio.ROTATIONS)
     tr = tuple(rng.choice((0, 1, -1, BOX, -BOX * 7, 123456, -700000)) for _ in range(3))
     recs = pdbio.move(recs, rot, tr)
@@ -471,6 +515,8 @@ def pose_case(rng, viol, counts):
         viol.append({"cls": "bonds-exception", "msg": "single() raised %s on %s" % (run.exc, name)})
     else:
         bridged_carries_no_charge(run, viol, counts)
+        if run.mol is not None:
+            pipeline_bonds_follow_the_rule(run.mol, viol, counts)
         conf = run.rec["confs"][run.rec["names"][0]]
         for g in conf["groups"]:
             if g["rtype"] == "CYS" and (g["bridge"] != (abs(g["pka"] - 99.99) < 1e-9) or g["bridge"] == g["titratable"]):
